@@ -256,8 +256,21 @@ def install(ex):
             return Der(cd[1])
 
     class P256Point:
-        def __init__(self, enc):
+        """Affine point: symbolic 256-bit coordinates; `enc` is its SEC1 compressed form (tag 02/03 by the parity of y, then x on 32 bytes)."""
+
+        def __init__(self, enc=None, x=None, y=None):
+            if enc is None:
+                tag = bvx.SymInt(bvx.bv(2) + (bvx.bv(y) & 1))
+                enc = bvx.SymBytes([tag] + list(x.to_bytes(32, 'big').items))
             self.enc = enc
+            if x is None:
+                x = bvx._Int.from_bytes(enc[1:], 'big')
+            self.x = x
+            self.y = y
+
+    def _point_of(d):
+        raw = c.fn('p256.point', 64, d)
+        return P256Point(x=bvx._Int.from_bytes(raw[:32], 'big'), y=bvx._Int.from_bytes(raw[32:], 'big'))
 
     def b2i(b):
         return bvx._Int.from_bytes(b, 'big')
@@ -269,7 +282,7 @@ def install(ex):
         class keys:
             @staticmethod
             def get_public_key(d, curve=None):
-                return P256Point(c.fn('p256.pk', 33, d))
+                return _point_of(d)
 
         class encoding:
             class sec1:
@@ -290,7 +303,7 @@ def install(ex):
                 lim = 1 << 256
                 ex.assume((r >= 1) & (r < lim) & (s >= 1) & (s < lim))
                 c.calls.append(('p256.sign', {'message': msg, 'd': d, 'hashfunc': hashfunc}, (r, s)))
-                pk = c.fn('p256.pk', 33, d)
+                pk = _point_of(d).enc
                 c.signed.append(('p2', pk, msg, (r, s)))
                 return r, s
 
@@ -404,6 +417,9 @@ def env(ex, kinds=(), extra_modules=(), key_module=None):
         setattr(K, n, v)
     E.base58 = b
     F.base58 = b
+    saved_x = [(m, m.base58) for m in extra_modules if 'base58' in m.__dict__]
+    for m, _ in saved_x:
+        m.base58 = b
     try:
         with mbv.env(), bvx.shadowed(E, F, K, *extra_modules):
             yield c, b
@@ -414,3 +430,5 @@ def env(ex, kinds=(), extra_modules=(), key_module=None):
             obj.clear()
             (obj.update if isinstance(obj, (set, dict)) else obj.extend)(snap)
         E.base58, F.base58 = saved_b
+        for m, old in saved_x:
+            m.base58 = old
